@@ -27,8 +27,10 @@ CHECKS = [
         "field offset walk over embedded callbacks) is proved equal to the ObjectBlob layout of gitypelib-internal.h written as a "
         "table; each accessor creates its info at section_start + n*size with the right info type, and rejects non-object infos.",
         "Trusted: givc C front end, stub headers, g_info_new/g_base_info_get_type by assumed contract, count*size products by "
-        "congruence (no overflow modelling). Interface/struct/union/enum/callable accessors, attribute lookup, g_irepository_get_info "
-        "and the g-ir-generate text are not yet under contract.", "DESIGN.md section 4 C09",
+        "congruence (no overflow modelling). Also under contract: the interface accessors (InterfaceBlob layout), "
+        "g_struct_get_field_offset, g_union_info_get_field/method, g_enum_info_get_value/method and the attribute run lookup "
+        "(_attribute_blob_find_first). Callable / type accessors, g_irepository_get_info / find_by_name and the g-ir-generate text "
+        "are not under contract.", "DESIGN.md section 4 C09",
         technique="deductive verification: clang-AST -> VC generator (givc C front end) on the real C functions + z3"),
     chk("C17", "The real version-election functions of girepository.c are proved: compare_version is the numeric (major, minor) "
         "order, compare_candidate_reverse is 'higher version first, earlier directory among equals' and is a total preorder "
